@@ -13,6 +13,9 @@ CONFIGS = {
     "aes-compact":      dict(rustflags=["--cfg", "aes_compact"], features=["hazmat", "bcrypt"]),
     "kuz-soft":         dict(rustflags=["--cfg", 'kuznyechik_backend="soft"'], features=["hazmat", "bcrypt"]),
     "kuz-compact":      dict(rustflags=["--cfg", 'kuznyechik_backend="compact_soft"'], features=["hazmat", "bcrypt"]),
+    # every target feature of this CPU enabled statically (code under cfg(target_feature = ..); upstream CI builds with +aes,+ssse3)
+    "native":           dict(rustflags=["-C", "target-cpu=native"], features=["hazmat", "bcrypt"]),
+    "native-z":         dict(rustflags=["-C", "target-cpu=native"], features=["zeroize", "hazmat", "bcrypt"]),
     "serpent-loop":     dict(rustflags=["--cfg", "serpent_no_unroll"], features=["hazmat", "bcrypt"]),
     # hook build: detection can be forced off at run time (soft union arm reachable)
     "aes-detect-off":   dict(rustflags=["--cfg", "block_ciphers_verif"], features=["hazmat", "bcrypt"], hook=True),
